@@ -28,13 +28,61 @@ KEY_HANG = "crash-or-deadlock"
 
 
 # --------------------------------------------------------------------------- program representation
-# case  = {"n","w","du","phases":[phase]}
+# case  = {"n","w","du","phases":[phase]}      "du": one displacement unit for all ranks (int) or one per rank (list)
+#                                               "w": one window size (ints) for all ranks (int) or one per rank (list)
 # phase = {"kind": "X"|"S"|"F"|"N", "ranks": [[item]]}     item = ("epoch", t, [item]) | ("call", call) | ("wait", usec)
 #                                                           | ("flush", t);   F phases carry "fa": (assert1, assert2)
 # call  = {"k": put|get|acc|gacc|fop|cas, "t", "idx", "n", "op", "vals", "cmp", "new"}   (idx = int index in the window)
 
 def disp_of(du, idx):
     return idx * 4 // du
+
+
+def dus_of(case):
+    """the disp_unit every rank passes to MPI_Win_create (MPI lets each rank choose its own)"""
+    du = case["du"]
+    return list(du) if isinstance(du, (list, tuple)) else [du] * case["n"]
+
+
+def ws_of(case):
+    """the size (in ints) of the window every rank exposes (each rank calls MPI_Win_create with its own size)"""
+    w = case["w"]
+    return list(w) if isinstance(w, (list, tuple)) else [w] * case["n"]
+
+
+def w_token(case):
+    w = case["w"]
+    return ",".join(map(str, w)) if isinstance(w, (list, tuple)) else str(w)
+
+
+def pad(row, width):
+    return list(row) + [0] * (width - len(row))
+
+
+def du_token(case):
+    du = case["du"]
+    return ",".join(map(str, du)) if isinstance(du, (list, tuple)) else str(du)
+
+
+def boundary_access(rng, w, du, single):
+    """an access placed on purpose at the end of the window (the range check and the address computation are only
+    exercised at their boundary by such accesses): -> (idx, cnt) or None
+      whole   displacement 0, count == window size        tail   idx > 0, idx + count == window size
+      last    the last element only                       single = the call moves one element (Fetch_and_op, CAS)"""
+    step = 2 if du == 8 else 1
+    shape = rng.choice(["whole", "tail", "last", "whole"])
+    if single:
+        shape = "last"
+    if shape == "whole":
+        return 0, w
+    if shape == "tail":
+        idx = rng.below(w)
+        idx -= idx % step
+        return idx, w - idx
+    idx = w - 1
+    if idx % step:
+        return (idx - 1, 2) if not single else None     # the last element is not addressable with this unit
+    return idx, 1
 
 
 def orders_count(sizes):
@@ -82,6 +130,10 @@ def gen_epoch_calls(rng, n, w, du, t, initvals, with_waits, allow_cas=True):
             idx -= idx % 2
         if idx + cnt > w:
             cnt = w - idx
+        if rng.chance(1, 4):
+            b = boundary_access(rng, w, du, kind in ("fop", "cas"))
+            if b:
+                idx, cnt = b
         cells = list(range(idx, idx + cnt))
         op = rng.choice(OPS) if kind in ("acc", "gacc", "fop") else None
         if kind == "fop" and rng.chance(1, 4):
@@ -121,7 +173,7 @@ def gen_epoch_calls(rng, n, w, du, t, initvals, with_waits, allow_cas=True):
     return items
 
 
-def gen_X(rng, n, w, du, initvals):
+def gen_X(rng, n, ws, dus, initvals):
     contended = rng.chance(2, 3)
     hot = rng.below(n)
     with_waits = rng.chance(1, 2)
@@ -138,7 +190,7 @@ def gen_X(rng, n, w, du, initvals):
                     items.append(("wait", rng.choice([1, 10, 100, 300])))
                 elif rng.chance(1, 5):
                     items.append(("wait", rng.choice([1, 30, 120])))
-                calls = gen_epoch_calls(rng, n, w, du, t, initvals, with_waits, allow_cas)
+                calls = gen_epoch_calls(rng, n, ws[t], dus[t], t, initvals, with_waits, allow_cas)
                 if calls:
                     items.append(("epoch", t, calls))
             ranks.append(items)
@@ -147,15 +199,18 @@ def gen_X(rng, n, w, du, initvals):
             return {"kind": "X", "ranks": ranks}
 
 
-def gen_SF(rng, kind, n, w, du, initvals, opened):
+def gen_SF(rng, kind, n, ws, dus, initvals, opened):
     """lock_all or fence phase: cells of every target get a class; calls respect the classes, so that the program is
     race-free in MPI's sense (conflicts only between same-operator accumulate-family calls, or between CAS)."""
-    step = 2 if du == 8 else 1
     cls = {}
     for t in range(n):
+        du = dus[t]
+        w = ws[t]
         i = 0
         while i < w:
             seg = min(w - i, rng.choice([1, 1, 2, 3]))
+            if rng.chance(1, 6):
+                seg = w - i                  # a segment up to the end of the window (the whole window when i == 0)
             if du == 8 and seg % 2 == 1:
                 seg = min(w - i, seg + 1)
             k = rng.below(10)
@@ -176,8 +231,8 @@ def gen_SF(rng, kind, n, w, du, initvals, opened):
             items = []
             for _ in range(rng.choice([0, 1, 2, 2, 3])):
                 t = rng.below(n)
-                idx = rng.below(w)
-                if du == 8:
+                idx = rng.below(ws[t])
+                if dus[t] == 8:
                     idx -= idx % 2
                 c = cls[(t, idx)]
                 seg0, seglen = c[-2], c[-1]
@@ -186,6 +241,16 @@ def gen_SF(rng, kind, n, w, du, initvals, opened):
                         continue
                     mode = c[2]
                     cnt = min(rng.choice([1, 2, 3]), seg0 + seglen - idx)
+                    if rng.chance(1, 3):
+                        # boundary: the whole segment (= the whole window / up to its last element for such segments),
+                        # or the last element(s) of the segment
+                        if rng.chance(1, 2):
+                            idx, cnt = seg0, seglen
+                        else:
+                            cnt = 2 if (dus[t] == 8 and seglen >= 2 and (seg0 + seglen) % 2 == 0) else 1
+                            idx = seg0 + seglen - cnt
+                            if dus[t] == 8 and idx % 2:
+                                idx, cnt = seg0, seglen
                     if mode == "put":
                         if any((t, j) in done_put for j in range(idx, idx + cnt)):
                             continue
@@ -201,7 +266,10 @@ def gen_SF(rng, kind, n, w, du, initvals, opened):
                     op = c[1]
                     if kk == "fop" and rng.chance(1, 5):
                         op = "noop"
-                    call = gen_call_on(rng, kk, t, idx, 1, op)
+                    cnt = 1
+                    if kk != "fop" and rng.chance(1, 4):
+                        idx, cnt = seg0, seglen      # the whole shared-accumulate segment
+                    call = gen_call_on(rng, kk, t, idx, cnt, op)
                 else:
                     call = gen_call_on(rng, "cas", t, idx, 1, None, [initvals(t, idx), 11, 22])
                 items.append(("call", call))
@@ -218,23 +286,32 @@ def gen_SF(rng, kind, n, w, du, initvals, opened):
             return ph
 
 
-def gen_N(rng, n, w, du):
+def gen_N(rng, n, ws, dus):
     ranks = [[] for _ in range(n)]
     r = rng.below(n)
     for _ in range(rng.range(1, 2)):
         kind = rng.choice(["put", "get", "acc", "fop", "cas"])
-        idx = rng.below(w)
-        if du == 8:
+        t = rng.below(n)
+        idx = rng.below(ws[t])
+        if dus[t] == 8:
             idx -= idx % 2
-        ranks[r].append(("call", gen_call_on(rng, kind, rng.below(n), idx, 1, rng.choice(OPS))))
+        ranks[r].append(("call", gen_call_on(rng, kind, t, idx, 1, rng.choice(OPS))))
     return {"kind": "N", "ranks": ranks}
 
 
 def gen_case(rng):
     n = rng.range(2, 4)
-    w = rng.choice([4, 6, 8, 12])
+    w = rng.choice([4, 6, 8, 12, 1, 2, 3, 5])          # incl. one-element windows (a counter) and odd sizes
     du = rng.choice([4, 4, 4, 1, 8])
+    if rng.chance(1, 2):
+        # every rank passes its own disp_unit to MPI_Win_create: displacements are scaled by the TARGET's unit
+        du = [rng.choice([4, 1, 8]) for _ in range(n)]
+    if rng.chance(1, 3):
+        # every rank exposes a window of its own size: the range check uses the TARGET's size
+        w = [rng.choice([1, 2, 3, 4, 5, 6, 8, 12]) for _ in range(n)]
     case = {"n": n, "w": w, "du": du, "phases": []}
+    du = dus_of(case)
+    w = ws_of(case)
     opened = 0
     # the generator tracks a *guess* of the memory only to choose interesting CAS compare values
     guess = lambda t, i: 1000 * (t + 1) + i
@@ -250,14 +327,17 @@ def gen_case(rng):
         else:
             ph = gen_N(rng, n, w, du)
         case["phases"].append(ph)
-    if rng.chance(1, 12):
-        # malformed stream: one call whose count exceeds the window (must fail with MPI_ERR_RMA_RANGE, no effect)
-        ph = case["phases"][0]
-        if ph["kind"] in ("S", "F"):
+    if rng.chance(1, 8):
+        # malformed stream: one call whose count exceeds the window, mostly by ONE element (must fail with
+        # MPI_ERR_RMA_RANGE on both sides and leave the memory alone), in the first lock_all / fence phase
+        sf = [ph for ph in case["phases"] if ph["kind"] in ("S", "F")]
+        if sf:
+            ph = sf[0]
             r = rng.below(n)
-            cnt = w + rng.range(1, 3)
-            ph["ranks"][r].append(("call", gen_call_on(rng, rng.choice(["put", "get", "acc"]), rng.below(n), 0, cnt,
-                                                       "sum")))
+            t = rng.below(n)
+            cnt = w[t] + rng.choice([1, 1, 1, 2, 3])
+            kind = rng.choice(["put", "get", "acc", "gacc"])
+            ph["ranks"][r].append(("call", gen_call_on(rng, kind, t, 0, cnt, "sum")))
             case["malformed"] = True
     return case
 
@@ -277,8 +357,8 @@ def assign_ids(case, base):
     return k
 
 
-def call_script(du, c):
-    d = disp_of(du, c["idx"])
+def call_script(dus, c):
+    d = disp_of(dus[c["t"]], c["idx"])
     k = c["k"]
     if k == "put":
         return "put %d %d %d %d %s" % (c["id"], c["t"], d, c["n"], " ".join(map(str, c["vals"])))
@@ -291,8 +371,8 @@ def call_script(du, c):
     return "cas %d %d %d %d %d" % (c["id"], c["t"], d, c["cmp"], c["new"])
 
 
-def call_query(du, c):
-    d = disp_of(du, c["idx"])
+def call_query(dus, c):
+    d = disp_of(dus[c["t"]], c["idx"])
     k = c["k"]
     if k == "put":
         return "put %d %d %d %d %s" % (c["id"], c["t"], d, c["n"], " ".join(map(str, c["vals"])))
@@ -307,8 +387,8 @@ def call_query(du, c):
 
 def emit_script(case, dump_base):
     """-> (lines, [dump id per phase])"""
-    du = case["du"]
-    out = ["W %d %d" % (case["w"], du)]
+    du = dus_of(case)
+    out = ["W %s %s" % (w_token(case), du_token(case))]
     dumps = []
     for pi, ph in enumerate(case["phases"]):
         kind = ph["kind"]
@@ -343,10 +423,11 @@ def emit_script(case, dump_base):
 
 
 def phase_query(case, ph, before):
-    du = case["du"]
-    toks = ["ph", ph["kind"], str(case["n"]), str(case["w"]), str(du), "M"]
+    du = dus_of(case)
+    toks = ["ph", ph["kind"], str(case["n"]), w_token(case), du_token(case), "M"]
+    wmax = max(ws_of(case))
     for r in range(case["n"]):
-        toks += [str(v) for v in before[r]]
+        toks += [str(v) for v in pad(before[r], wmax)]
     for r, items in enumerate(ph["ranks"]):
         first = True
         for it in items:
@@ -450,14 +531,15 @@ class Runner:
 
 def driver_lines(case, obs):
     """one driver line per phase; the memory before a phase is the one observed after the previous one"""
-    n, w = case["n"], case["w"]
-    before = [[1000 * (r + 1) + i for i in range(w)] for r in range(n)]
+    n, ws = case["n"], ws_of(case)
+    wmax = max(ws)
+    before = [[1000 * (r + 1) + i for i in range(ws[r])] for r in range(n)]
     lines = []
     for ph, o in zip(case["phases"], obs):
-        if any(x is None or len(x) != w for x in o["wins"]):
+        if any(x is None or len(x) != ws[r] for r, x in enumerate(o["wins"])):
             return None
         q = phase_query(case, ph, before)
-        a = ["W"] + [str(v) for r in range(n) for v in o["wins"][r]]
+        a = ["W"] + [str(v) for r in range(n) for v in pad(o["wins"][r], wmax)]
         for i in sorted(o["R"]):
             a += ["R", str(i), str(len(o["R"][i]))] + [str(v) for v in o["R"][i]]
         for i in sorted(o["E"]):
@@ -525,6 +607,131 @@ def corpus_cases():
     return cs
 
 
+def boundary_cases():
+    """deterministic boundary enumeration; runs first on every seed, after the corpus.
+    Window sizes 1 (a counter), 2, 5 on all ranks, and 1 / 5 / 2 and 5 / 2 / 1 on ranks 0 / 1 / 2 (a call that fits the
+    target may be longer than the origin's own window and vice versa); the same disp_unit everywhere and three rotations of per-rank units 4 / 1 / 8; for
+    each: A whole-window Put / Accumulate / Get_accumulate (count == window size at displacement 0), B whole-window Get
+    from a remote rank and from oneself, C the last element only (Fetch_and_op / CAS / Put), C2 a Get / Get_accumulate
+    from displacement > 0 up to the last element (displacement + count == window size), D one element more than the
+    window holds (must be refused with MPI_ERR_RMA_RANGE, memory untouched).  The phase kinds rotate over exclusive
+    epochs, lock_all and fence."""
+    def call(k, t, idx, n=1, **kw):
+        c = {"k": k, "t": t, "idx": idx, "n": n}
+        c.update(kw)
+        return ("call", c)
+    n = 3
+    cs = []
+    j = 0
+
+    def phase(kind, percall):
+        """percall[r] = calls of origin r (each on one target)"""
+        if kind == "X":
+            ranks = [[("epoch", c[1]["t"], [c]) for c in calls] for calls in percall]
+        else:
+            ranks = [list(calls) for calls in percall]
+        ph = {"kind": kind, "ranks": ranks}
+        if kind == "F":
+            ph["fa"] = (0, 8)
+        return ph
+
+    for w in (1, 2, 5, [1, 5, 2], [5, 2, 1]):
+        for du in (4, [4, 1, 8], [8, 4, 1], [1, 8, 4]):
+            dus = du if isinstance(du, list) else [du] * n
+            ws = w if isinstance(w, list) else [w] * n          # ws[t]: size of the window of rank t
+            ok = lambda t, idx: (idx * 4) % dus[t] == 0
+            kinds = ["X", "S", "F"]
+            phases = []
+            vals = lambda r, t, m: [10 * (r + 1) + i + 100 * m for i in range(ws[t])]
+            # A
+            wr = []
+            for r in range(n):
+                t = (r + 1) % n
+                k = ["put", "acc", "gacc"][(r + j) % 3]
+                kw = {"vals": vals(r, t, 0)}
+                if k != "put":
+                    kw["op"] = ["sum", "replace", "max"][(r + j) % 3]
+                wr.append([call(k, t, 0, ws[t], **kw)])
+            phases.append(phase(kinds[j % 3], wr))
+            # B
+            phases.append(phase(kinds[(j + 1) % 3], [[call("get", (r + 2) % n, 0, ws[(r + 2) % n]), call("get", r, 0, ws[r])]
+                                                     for r in range(n)]))
+            # C
+            lc = []
+            for r in range(n):
+                t = (r + 1) % n
+                k = ["fop", "cas", "put"][(r + j) % 3]
+                last = ws[t] - 1
+                if not ok(t, last):
+                    lc.append([])
+                elif k == "fop":
+                    lc.append([call("fop", t, last, 1, op="sum", vals=[5])])
+                elif k == "cas":
+                    lc.append([call("cas", t, last, 1, cmp=1000 * (t + 1) + last, new=33)])
+                else:
+                    lc.append([call("put", t, last, 1, vals=[77])])
+            if any(lc):
+                phases.append(phase(kinds[(j + 2) % 3], lc))
+            # C2
+            tl = []
+            for r in range(n):
+                t = (r + 1) % n
+                idx = 2 if dus[t] == 8 else 1
+                if idx >= ws[t]:
+                    tl.append([])
+                elif (r + j) % 2:
+                    tl.append([call("gacc", t, idx, ws[t] - idx, op="noop", vals=[0] * (ws[t] - idx))])
+                else:
+                    tl.append([call("get", t, idx, ws[t] - idx)])
+            if any(tl):
+                phases.append(phase(kinds[j % 3], tl))
+            # D
+            bad = []
+            for r in range(n):
+                t = (r + 1) % n
+                k = ["get", "put", "acc", "gacc"][(r + j) % 4]
+                kw = {} if k == "get" else {"vals": vals(r, t, 1) + [9]}
+                if k in ("acc", "gacc"):
+                    kw["op"] = "sum"
+                bad.append([call(k, t, 0, ws[t] + 1, **kw)])
+            phases.append(phase(kinds[(j + 1) % 3], bad))
+            cs.append({"n": n, "w": w, "du": du, "phases": phases, "malformed": True})
+            j += 1
+    return cs
+
+
+def boundary_stats(case, st):
+    """what the generated stream reaches of the boundaries (reported in the coverage)"""
+    dus = dus_of(case)
+    ws = ws_of(case)
+    if len(set(dus)) > 1:
+        st["programs_with_per_rank_disp_unit"] += 1
+    if len(set(ws)) > 1:
+        st["programs_with_per_rank_window_size"] += 1
+    if 1 in ws:
+        st["programs_with_one_element_window"] += 1
+    for ph in case["phases"]:
+        for r, c in phase_calls(ph):
+            w = ws[c["t"]]
+            if w < c["n"] <= ws[r]:
+                st["calls_too_long_for_the_target_but_not_for_the_origin(malformed)"] += 1
+            if ws[r] < c["n"] <= w:
+                st["calls_longer_than_the_origin's_own_window"] += 1
+            if c["n"] > w:
+                st["calls_past_the_end(malformed)"] += 1
+                if c["n"] == w + 1:
+                    st["calls_one_element_too_many(malformed)"] += 1
+                continue
+            if c["idx"] + c["n"] == w:
+                st["calls_ending_at_the_last_element"] += 1
+                if c["idx"] == 0:
+                    st["calls_spanning_the_whole_window"] += 1
+            if c["idx"] > 0 and dus[c["t"]] != dus[r] and c["t"] != r:
+                st["calls_at_disp>0_to_a_target_with_another_disp_unit"] += 1
+                if c["k"] in ("get", "gacc", "fop", "cas"):
+                    st["reads_at_disp>0_from_a_target_with_another_disp_unit"] += 1
+
+
 def single_phase_case(case, pi):
     return {"n": case["n"], "w": case["w"], "du": case["du"], "phases": [json.loads(json.dumps(case["phases"][pi]))]}
 
@@ -569,8 +776,17 @@ def run(ctx):
     if ctx.replay:
         cases = [fix_json(json.load(open(ctx.replay))["case"]["case"])]
     else:
-        cases = corpus_cases() + [gen_case(rng.fork(i)) for i in range(ncases)]
-    ncorpus = len(corpus_cases())
+        cases = corpus_cases() + boundary_cases() + [gen_case(rng.fork(i)) for i in range(ncases)]
+    ncorpus = len(corpus_cases()) + len(boundary_cases())
+    bstats = {k: 0 for k in ("programs_with_per_rank_disp_unit", "programs_with_one_element_window",
+                             "programs_with_per_rank_window_size", "calls_longer_than_the_origin's_own_window",
+                             "calls_too_long_for_the_target_but_not_for_the_origin(malformed)",
+                             "calls_past_the_end(malformed)", "calls_one_element_too_many(malformed)",
+                             "calls_ending_at_the_last_element", "calls_spanning_the_whole_window",
+                             "calls_at_disp>0_to_a_target_with_another_disp_unit",
+                             "reads_at_disp>0_from_a_target_with_another_disp_unit")}
+    for c in cases:
+        boundary_stats(c, bstats)
     # batches per rank count
     kinds, shapes = {}, {}
     verdict_by_key = {}
@@ -638,4 +854,4 @@ def run(ctx):
     ctx.cov["samples"] = [l for _, _, l in all_lines[:2]] + [l for _, _, l in all_lines[ncorpus + 3:ncorpus + 6]]
     ctx.cov["distribution"] = {"phase_kinds": kinds, "calls": shapes, "smpirun_runs": R.runs,
                                "monitor_failures_by_key": {str(k): v for k, v in verdict_by_key.items()},
-                               "programs": len(cases)}
+                               "programs": len(cases), "boundaries": bstats}
